@@ -103,23 +103,35 @@ def delegation(db, ctx):
 def eol(db, ctx):
     f = db.one("strip_eol", None, pkg="sudachi-cli")
     guards = []
+    from ..inline import nf
+
+    def is_len(x):
+        x = peel_casts(x)
+        return isinstance(x, dict) and (local_name(x) == "len" or nf(x).endswith(".len()"))
+
+    def len_cmp(x):
+        c = cmp_atom(x) if isinstance(x, dict) and x.get("k") == "Binary" else None
+        return bool(c) and ((is_len(c[1]) and lit_int(c[2]) is not None) or (is_len(c[2]) and lit_int(c[1]) is not None))
+    scalar_index = [n for n, _ in walk(f.hir) if n.get("k") == "Index" and not (n["i"].get("ty") or "").startswith(("std::ops::Range", "core::ops::Range"))
+                    and peel(n["i"]).get("k") != "Struct"]
     for n, ps in walk(f.hir):
-        if n.get("k") == "If" and mentions(n["cond"], lambda x: x.get("k") == "Index"):
+        if n.get("k") == "If" and (mentions(n["cond"], lambda x: x.get("k") == "Index") or mentions(n["cond"], len_cmp)
+                                   or mentions(n["cond"], lambda x: x.get("k") == "MethodCall" and x.get("method") == "is_empty")):
             guards.append(n)
     if not guards:
-        # accepted alternative idioms
-        txt = render(f.hir)
-        alt = any(m in txt for m in ("strip_suffix", "trim_end_matches", "trim_end"))
-        ctx.ob("strip_eol|idiom", alt, "strip_eol uses %s" % ("a std suffix-stripping helper" if alt else "an unrecognised idiom: " + txt[:160]), fn=f)
+        # no length comparison and no raw byte indexing: the terminator is removed through total helpers / slice patterns
+        # (strip_suffix, split_last, ends_with, ..), which treat a one-byte line like any other
+        ctx.ob("strip_eol|idiom", not scalar_index,
+               "strip_eol has no length guard; raw byte indexing without one: %s (total std helpers / slice patterns need none)" % [render(x) for x in scalar_index], fn=f)
         return
     for i, g in enumerate(guards):
         def ev(atom):
             c = cmp_atom(atom)
             if c:
                 op, l, r = c
-                if local_name(l) == "len" and lit_int(r) is not None:
+                if is_len(l) and lit_int(r) is not None:
                     return holds(op, 1, lit_int(r))
-                if local_name(r) == "len" and lit_int(l) is not None:
+                if is_len(r) and lit_int(l) is not None:
                     return holds(op, lit_int(l), 1)
                 if peel(l).get("k") == "Index" or peel(r).get("k") == "Index":
                     return True  # the byte is the terminator
